@@ -328,10 +328,31 @@ def _contract_header(pieces):
     return out
 
 
-def gen_unit(unit, _stack=()):
-    """returns Generated for units/<unit>.rs (and writes nothing)"""
+def find_method_unit(fn):
+    """unit whose template extracts an inherent Uint method `fn` (for the missing-method auto-import)"""
+    for f in sorted(os.listdir(UNITS)):
+        if not f.endswith(".rs"):
+            continue
+        txt = open(os.path.join(UNITS, f)).read()
+        for m in re.finditer(r"^//@ extract (\S+) (fn|const) (\w+)(.*)$", txt, re.M):
+            if m.group(3) == fn and "as=" not in m.group(4) and m.group(1) != "expanded":
+                # only methods placed inside an `impl ... Uint<BITS, LIMBS>` block of that unit
+                before = txt[:m.start()]
+                k = before.rfind("\nimpl<const BITS: usize, const LIMBS: usize> Uint<BITS, LIMBS> {")
+                if k >= 0 and before.count("\n}\n", k) == 0:
+                    return f[:-3]
+    return None
+
+
+def gen_unit(unit, _stack=(), extra_imports=()):
+    """returns Generated for units/<unit>.rs (and writes nothing).
+    extra_imports: [(unit, method)] appended in a separate impl block (missing-method auto-import on changed code)"""
     path = os.path.join(UNITS, unit + ".rs")
     src = open(path).read()
+    if extra_imports:
+        blk = "impl<const BITS: usize, const LIMBS: usize> Uint<BITS, LIMBS> {\n" + "".join("//@ import %s %s\n" % (u2, fn) for (u2, fn) in extra_imports) + "}\n"
+        k = src.rindex("} // verus!")
+        src = src[:k] + "// ---- auto-imported: methods the current code calls that the template does not declare\n" + blk + src[k:]
     g = Generated()
     out = []
     lines = src.split("\n")
